@@ -1,5 +1,6 @@
 import OrdModel.Proofs.IndexSatsPartition
 import OrdModel.Proofs.IndexSatsArith
+import OrdModel.Proofs.IndexSatsRange
 import OrdModel.Proofs.IndexSatsTx
 import OrdModel.Index.Run
 import OrdModel.Proofs.IndexSatsWitness
@@ -64,6 +65,16 @@ theorem c02_find_none (st : State) (sat : Nat)
   simp only [find, satHeightO, hs, if_false, hn, Outcome.ok.injEq]
   exact findInUtxo_none
 
+/-- Without duplicate txids every mined sat is found (and, by `c02_find_iff`, at its place). -/
+theorem c02_find_mined_found (st : State) (inv : SatsPartitionedExact st) (sat : Nat)
+    (h : sat < startingSat st.height) : ∃ p, find st sat = .ok (some p) ∧ SatAt st.utxo sat p := by
+  have hmem : sat ∈ allSats st.utxo := inv.perm.mem_iff.mpr (List.mem_range.mpr h)
+  cases hf : findInUtxo sat st.utxo with
+  | none => exact absurd hmem (findInUtxo_none.mp hf)
+  | some p =>
+    have hat := findInUtxo_sound hf
+    exact ⟨p, (c02_find_iff st inv.toSatsPartitioned sat p).mpr hat, hat⟩
+
 /-- Sats of blocks not yet indexed are reported as not found. -/
 theorem c02_find_unmined (st : State) (sat : Nat)
     (hs : epochSubsidy (satEpoch sat) ≠ 0) (hh : st.height ≤ satHeight sat) :
@@ -89,6 +100,45 @@ theorem c02_place_unique (st : State) (inv : SatsPartitioned st) (sat : Nat) (p 
   have h1 := findInUtxo_complete inv.nodup hp
   have h2 := findInUtxo_complete inv.nodup hq
   rw [h1] at h2; exact Option.some.inj h2
+
+/-! ## `find_range` -/
+
+/-- Every hit `find_range` returns is a genuine overlap: `size` consecutive sats starting at
+`start`, inside the requested range, sitting at consecutive offsets of the reported satpoint;
+the sizes never exceed the requested length.  (`_partial`: soundness, on every state; that
+*all* overlaps are returned and the sizes sum to the request when everything is mined is not
+proved — it is compared with the real code and follows on a partitioned table from the
+`remaining_sats` accounting in `findRangeEntry_sound`.) -/
+theorem c02_find_range_sound_partial (st : State) (rs re : Nat) (hits : List FindRangeOutput)
+    (h : findRange st rs re = .ok (some hits)) :
+    rs ≤ re ∧ (hits.map (·.size)).sum ≤ re - rs ∧ ∀ x ∈ hits, HitAt rs re st.utxo x := by
+  simp only [findRange] at h
+  split at h
+  · cases h
+  · split at h
+    · cases h
+    · cases h
+    · split at h
+      · cases h
+      · split at h
+        · cases h
+        · rename_i hle
+          split at h
+          · rename_i hs hrec
+            simp only [Outcome.ok.injEq, Option.some.injEq] at h
+            subst h
+            have hle' : rs ≤ re := by omega
+            obtain ⟨h1, h2⟩ := findRangeUtxo_sound rs re hle' st.utxo (re - rs) hs hrec
+            exact ⟨hle', h1, h2⟩
+          · cases h
+          · cases h
+
+/-- A range reaching into a block that is not indexed yet is reported as not found. -/
+theorem c02_find_range_unmined (st : State) (rs re : Nat) (h0 : re ≠ 0)
+    (hs : epochSubsidy (satEpoch (re - 1)) ≠ 0) (hh : st.height ≤ satHeight (re - 1)) :
+    findRange st rs re = .ok none := by
+  have : st.height < satHeight (re - 1) + 1 := by omega
+  simp [findRange, h0, satHeightO, hs, this]
 
 /-! ## `list` -/
 
